@@ -327,7 +327,15 @@ class GeoInterp:
         kw = {k.arg: k.value for k in e.keywords if k.arg}
 
         def args_of(names):
-            vals = [ev(a) for a in e.args]
+            vals = []
+            for a in e.args:
+                if isinstance(a, ast.Starred):
+                    sv = ev(a.value)
+                    if sv[0] != 'U':
+                        raise AnalysisError(f'geometry expression: `{src(a)}`')
+                    vals.extend(sv[1])
+                else:
+                    vals.append(ev(a))
             for n in names[len(vals):]:
                 if n in kw:
                     vals.append(ev(kw[n]))
@@ -345,6 +353,17 @@ class GeoInterp:
             if len(a) == 2 and all(x[0] == 'U' and len(x[1]) == 2 and
                                    all(y[0] == 'N' for y in x[1]) for x in a):
                 return ('A', tuple(tuple(y[1] for y in x[1]) for x in a))
+        if f == 'enumerate' and 1 <= len(e.args) <= 2:
+            v = ev(e.args[0])
+            st = ev(e.args[1]) if len(e.args) == 2 else (ev(kw['start']) if 'start' in kw
+                                                         else ('N', Aff.const(0)))
+            if v[0] == 'U' and st[0] == 'N' and st[1].is_const():
+                return ('U', tuple(('U', (('N', Aff.const(int(st[1].k) + i)), x))
+                                   for i, x in enumerate(v[1])))
+        if f in ('tuple', 'list') and len(e.args) == 1 and not kw:
+            v = ev(e.args[0])
+            if v[0] == 'U':
+                return v
         if f == 'len' and len(e.args) == 1 and not kw:
             v = ev(e.args[0])
             if v[0] in ('U', 'DV'):
@@ -488,8 +507,25 @@ class GeoInterp:
                         return ('X', 'raise ' + (src(e.value) if e.value is not None else ''))
                     if e.value is None:
                         return NONE
-                    return self.eval(w.expand(e.value), bound, fn.module, depth)
+                    return self.eval(self._expand_here(w, e.value, bound, fn.module, depth),
+                                     bound, fn.module, depth)
         return NONE
+
+    def _expand_here(self, w: GuardWalk, e: ast.AST, bound, module, depth: int) -> ast.AST:
+        """expansion of locals for the execution selected by the arguments: a local assigned
+        on several paths denotes the assignment whose path condition holds here"""
+        multi = any(isinstance(n, ast.Name) and len(w.defs.get(n.id, [])) > 1
+                    for n in ast.walk(e))
+        if not multi:
+            return w.expand(e)
+        from .guards import expand_under
+
+        def atom_truth(a: ast.AST):
+            try:
+                return self._truth(self.eval(w.expand(a), bound, module, depth))
+            except (AnalysisError, GeoKeyError):
+                return None
+        return expand_under(w, e, atom_truth)
 
 
 # ---------------------------------------------------------------------------
